@@ -115,6 +115,64 @@ func enumV3BaseSuffixes(r *ev.Run, P props) {
 	r.Add("distinct_nontrivial", n)
 }
 
+// topFirstSweep: the lower-level scores asked AFTER every query on the higher-level views — the
+// order in which a user who is interested in the environmental score first meets them.  v3: every
+// base vector x both versions x 26 environmental suffixes (among them modified impact None with
+// modified exploitability and scope that differ from the base metrics) x 2 temporal settings at
+// the environmental decoder; v2: every base x temporal combination x 12 environmental groups.
+// A higher-level query that works on the embedded object in place and forgets to restore it on
+// one path is invisible to base-first orders (round 4, C01-B-r4, C02-B-r4).
+func topFirstSweep(r *ev.Run, ver, scoreLevel int) {
+	P := noScore
+	P.scoreLevel, P.topFirst = scoreLevel, true
+	var n int64
+	if ver == 3 {
+		bases := allTok(3, 0)
+		suffixes := append(v3EnvSuffixes(),
+			map[string]string{"MC": "N", "MI": "N", "MA": "N", "MAV": "P", "MAC": "H", "MPR": "H", "MUI": "R", "MS": "C"},
+			map[string]string{"MC": "N", "MI": "N", "MA": "N", "MAV": "N", "MAC": "L", "MPR": "N", "MUI": "N", "MS": "U"},
+			map[string]string{"MC": "N", "MI": "N", "MA": "N", "MAV": "L", "MPR": "L"},
+			map[string]string{"MC": "H", "MI": "H", "MA": "H", "MAV": "A", "MAC": "H", "MPR": "L", "MUI": "R", "MS": "U", "CR": "L", "IR": "L", "AR": "L"},
+			map[string]string{"MAV": "P", "MAC": "H", "MPR": "H", "MUI": "R", "MS": "C", "CR": "H"},
+			map[string]string{"MAV": "N", "MAC": "L", "MPR": "N", "MUI": "N", "MS": "U", "MC": "L", "MI": "L", "MA": "L"})
+		safeParallel(r, len(bases), func(i int) {
+			var ln int64
+			for _, verLabel := range spec.V3Versions {
+				for si, e := range suffixes {
+					tok := merge(bases[i], e)
+					if (i+si)%2 == 0 {
+						tok["E"], tok["RL"], tok["RC"] = "P", "T", "U"
+					}
+					c := &dcase{ver: 3, level: 2, tok: tok, verLabel: verLabel}
+					c.s = canonicalWritten(3, 2, verLabel, tok)
+					evalDecoded(r, P, nil, c)
+					ln++
+				}
+			}
+			atomic.AddInt64(&n, ln)
+		})
+	} else {
+		bases, temps := allTok(2, 0), v2TempGroups()
+		groups := v2EnvGroups()
+		safeParallel(r, len(bases), func(i int) {
+			var ln int64
+			for ti, t := range temps {
+				for k := 0; k < 12; k++ {
+					g := groups[1+(k*163+ti*7+i)%(len(groups)-1)]
+					tok := merge(merge(bases[i], t.tok), g.tok)
+					c := &dcase{ver: 2, level: 2, tok: tok}
+					c.s = canonicalWritten(2, 2, "", tok)
+					evalDecoded(r, P, nil, c)
+					ln++
+				}
+			}
+			atomic.AddInt64(&n, ln)
+		})
+	}
+	r.Add("evaluations", n)
+	r.Add("lower_level_scores_asked_after_the_higher_levels", n)
+}
+
 // viewsAfterInstalments: the library's decoders accept a vector in instalments (a second Decode
 // on the same object that supplies only metrics it does not hold yet).  Decode the base part,
 // query every view, decode the rest, and compare the views with independent lower-level decodes
@@ -352,6 +410,7 @@ func init() {
 		st := newStats()
 		enumV3Base(r, P, st)
 		r.Phase("score sequences", func() { scoreSequences(r, 3, 0) })
+		r.Phase("higher levels queried first", func() { topFirstSweep(r, 3, 0) })
 		r.Phase("first use in fresh processes", func() { firstUseScores(r, 3, 0) })
 		graphC01(r, thorough)
 		st.report(r, 3)
